@@ -16,6 +16,8 @@ pub ghost enum FsEvent {
     Open { path: Seq<char>, mode: u32, created: bool, truncated: bool },
     Write { path: Seq<char> },
     Chown { path: Seq<char>, uid: Option<u32>, gid: Option<u32> },
+    Rename { from: Seq<char>, to: Seq<char> },
+    Remove { path: Seq<char> },
 }
 pub ghost struct Fs {
     pub files: Map<Seq<char>, Seq<u8>>,     // regular files that exist -> content
